@@ -5,6 +5,7 @@ import (
 	"encoding/binary"
 	"encoding/hex"
 	"fmt"
+	"os"
 	"time"
 
 	"github.com/jcmturner/gokrb5/v8/keytab"
@@ -314,6 +315,29 @@ func c14(c *Ctx) {
 				sig = "roundtrip:empty-keytab"
 			}
 			c.Check(rt, "Unmarshal(Marshal(kt)) = kt", sig, d, map[string]interface{}{"file": hex.EncodeToString(file), "version": v})
+			// the same through the file interface: Write to a file, Load it back
+			if ktFileRounds < 40 || !c.Quick() && ktFileRounds < 400 {
+				ktFileRounds++
+				var wb bytes.Buffer
+				var n int
+				var werr error
+				pw, _ := guard(func() { n, werr = kt.Write(&wb) })
+				c.Check(!pw && werr == nil && n == len(mb) && bytes.Equal(wb.Bytes(), mb), "Write emits exactly the Marshal bytes and reports their number", "write-differs", fmt.Sprintf("n=%d err=%v", n, werr), map[string]interface{}{"version": v})
+				if f, ferr := os.CreateTemp("", "verif-c14-*.keytab"); ferr == nil {
+					f.Write(mb)
+					f.Close()
+					var kt3 *keytab.Keytab
+					var lerr error
+					pl, _ := guard(func() { kt3, lerr = keytab.Load(f.Name()) })
+					os.Remove(f.Name())
+					ok3 := !pl && lerr == nil && kt3 != nil && string(projKeytab(kt3, v)) == string(before)
+					c.Check(ok3, "Load(file written by Write) = kt", "load-differs", fmt.Sprint(lerr), map[string]interface{}{"version": v})
+					c.Count("file-roundtrip")
+				}
+				var lerr2 error
+				guard(func() { _, lerr2 = keytab.Load("/nonexistent/verif-c14.keytab") })
+				c.Check(lerr2 != nil, "Load of a missing file is an error", "load-missing-accepted", "", nil)
+			}
 		}
 
 		// (3) look-ups: present and near-miss
@@ -429,5 +453,7 @@ func c14(c *Ctx) {
 		}
 	}
 }
+
+var ktFileRounds int
 
 func init() { props["C14"] = c14 }
